@@ -427,7 +427,11 @@ func (w *world) apply(e event) (v *verdict) {
 	// ---- every name a conformant client asked for has been covered by a response
 	if w.conformant && c.lastOK && !isWildcardType(t) && c.seen == len(w.sentNonces[t]) {
 		if p := sorted(c.pending); len(p) > 0 {
-			return &verdict{fmt.Sprintf("subscription-never-answered:%s:%s", map[bool]string{false: "sotw", true: "delta"}[w.delta], typeShort[t]),
+			key := fmt.Sprintf("subscription-never-answered:%s:%s", map[bool]string{false: "sotw", true: "delta"}[w.delta], typeShort[t])
+			if w.suppressed[t] {
+				key += ":after-suppressed-response"
+			}
+			return &verdict{key,
 				fmt.Sprintf("after %v the conformant client has seen every response and is still waiting for %v: no response sent since it asked covered them", e, p)}
 		}
 	}
@@ -544,7 +548,7 @@ func (w *world) enabled(thorough bool) []event {
 				} else {
 					for _, s := range subsets([]string{"a", "b"}) {
 						out = append(out, event{Kind: "req", Type: t, Nonce: n, Names: s, Err: errd})
-						if !errd && thorough {
+						if !errd {
 							out = append(out, event{Kind: "req", Type: t, Nonce: n, Names: s, NoSend: true})
 						}
 					}
